@@ -28,23 +28,30 @@ VARIABLES chan,      \* op -> sequence of items in its output channel: "c" chunk
           closed,    \* op -> its sender is dropped: a reader that finds the channel empty sees the end of the stream
           sent,      \* op -> chunks forwarded so far
           got,       \* op -> input chunks consumed so far (op 1 reads the table)
+          rcv,       \* op -> state of the receiving end of its channel: "inactive" (created, nobody listens: senders
+                     \*       wait), "active" (the parent subscribed), "orig" (Dev DeactivateAfterSpawn only: the
+                     \*       receiver created with the channel is still active)
           st,        \* op -> "run" | "failing" (caught a fault, has to report it) | "done" | "failed"
           out,       \* items the caller received from the root
           result,    \* "none" | "ok" | "err"
           fired
 
-vars == <<chan, closed, sent, got, st, out, result, fired>>
+vars == <<chan, closed, rcv, sent, got, st, out, result, fired>>
 
 Init == /\ chan = [o \in Ops |-> <<>>] /\ closed = [o \in Ops |-> FALSE]
+        /\ rcv = [o \in Ops |-> IF "DeactivateAfterSpawn" \in Dev THEN "orig" ELSE "inactive"]
         /\ sent = [o \in Ops |-> 0] /\ got = [o \in Ops |-> 0]
         /\ st = [o \in Ops |-> "run"] /\ out = <<>> /\ result = "none" /\ fired = FALSE
 
-HasItem(o)   == IF o = 1 THEN got[1] < Chunks ELSE Len(chan[o - 1]) > 0
+\* an operator reads its input through its own subscription
+HasItem(o)   == IF o = 1 THEN got[1] < Chunks ELSE rcv[o - 1] = "active" /\ Len(chan[o - 1]) > 0
 InputItem(o) == IF o = 1 THEN "c" ELSE Head(chan[o - 1])
-InputEof(o)  == IF o = 1 THEN got[1] = Chunks ELSE Len(chan[o - 1]) = 0 /\ closed[o - 1]
+InputEof(o)  == IF o = 1 THEN got[1] = Chunks ELSE rcv[o - 1] = "active" /\ Len(chan[o - 1]) = 0 /\ closed[o - 1]
 Pop(o, c)    == IF o = 1 THEN c ELSE [c EXCEPT ![o - 1] = Tail(@)]
 
 Hit(o) == FaultKind # "none" /\ o = FaultOp /\ sent[o] + 1 = FaultAt
+\* a send waits while nobody listens (async_broadcast with await_active)
+Listening(o) == rcv[o] # "inactive"
 
 \* operator o computes its next chunk from one input chunk and forwards it (the send waits for room);
 \* the fault hits while the chunk is computed, i.e. whether or not there is room in the channel
@@ -53,11 +60,11 @@ Forward(o) ==
     /\ IF Hit(o)
        THEN /\ st' = [st EXCEPT ![o] = "failing"] /\ fired' = TRUE
             /\ chan' = Pop(o, chan) /\ got' = [got EXCEPT ![o] = @ + 1]
-            /\ UNCHANGED <<sent, closed>>
-       ELSE /\ Len(chan[o]) < Cap
+            /\ UNCHANGED <<sent, closed, rcv>>
+       ELSE /\ Len(chan[o]) < Cap /\ Listening(o)
             /\ chan' = [Pop(o, chan) EXCEPT ![o] = Append(@, "c")]
             /\ got' = [got EXCEPT ![o] = @ + 1] /\ sent' = [sent EXCEPT ![o] = @ + 1]
-            /\ UNCHANGED <<st, fired, closed>>
+            /\ UNCHANGED <<st, fired, closed, rcv>>
     /\ UNCHANGED <<out, result>>
 
 \* the task reports the fault to its reader and ends.  An error value is an ordinary stream item and
@@ -68,26 +75,38 @@ Report(o) ==
     /\ st[o] = "failing"
     /\ LET lost == FaultKind = "panic" /\ ("PanicLooksLikeEof" \in Dev \/ ("PanicTrySend" \in Dev /\ Len(chan[o]) >= Cap))
        IN IF lost THEN UNCHANGED chan
-          ELSE Len(chan[o]) < Cap /\ chan' = [chan EXCEPT ![o] = Append(@, "e")]
+          ELSE Len(chan[o]) < Cap /\ Listening(o) /\ chan' = [chan EXCEPT ![o] = Append(@, "e")]
     /\ st' = [st EXCEPT ![o] = "failed"] /\ closed' = [closed EXCEPT ![o] = TRUE]
-    /\ UNCHANGED <<sent, got, out, result, fired>>
+    /\ UNCHANGED <<sent, got, out, result, fired, rcv>>
 
 \* end of input: the task ends and drops its sender
 Finish(o) ==
     /\ st[o] = "run" /\ InputEof(o)
     /\ st' = [st EXCEPT ![o] = "done"] /\ closed' = [closed EXCEPT ![o] = TRUE]
-    /\ UNCHANGED <<chan, sent, got, out, result, fired>>
+    /\ UNCHANGED <<chan, sent, got, out, result, fired, rcv>>
 
 \* an error from below is passed on and ends the operator
 Relay(o) ==
-    /\ st[o] = "run" /\ o > 1 /\ HasItem(o) /\ InputItem(o) = "e" /\ Len(chan[o]) < Cap
+    /\ st[o] = "run" /\ o > 1 /\ HasItem(o) /\ InputItem(o) = "e" /\ Len(chan[o]) < Cap /\ Listening(o)
     /\ chan' = [Pop(o, chan) EXCEPT ![o] = Append(@, "e")]
     /\ st' = [st EXCEPT ![o] = "failed"] /\ closed' = [closed EXCEPT ![o] = TRUE]
-    /\ UNCHANGED <<sent, got, out, result, fired>>
+    /\ UNCHANGED <<sent, got, out, result, fired, rcv>>
+
+\* The parent (for the root: Database::run) subscribes to the channel while it builds its own executor; the
+\* tasks below are already running then.
+Subscribe(o) ==
+    /\ rcv[o] = "inactive" /\ rcv' = [rcv EXCEPT ![o] = "active"]
+    /\ UNCHANGED <<chan, closed, sent, got, st, out, result, fired>>
+\* Dev "DeactivateAfterSpawn" (the defect repaired in spawn()): the channel is created with an active receiver
+\* that is deactivated only after the task was spawned; what the task sent in between is dropped with it.
+Deactivate(o) ==
+    /\ rcv[o] = "orig" /\ rcv' = [rcv EXCEPT ![o] = "inactive"]
+    /\ chan' = [chan EXCEPT ![o] = <<>>]
+    /\ UNCHANGED <<closed, sent, got, st, out, result, fired>>
 
 \* Database::run collects the root's stream
 Collect ==
-    /\ result = "none"
+    /\ result = "none" /\ rcv[N] = "active"
     /\ \/ /\ Len(chan[N]) > 0
           /\ LET x == Head(chan[N]) IN
              /\ chan' = [chan EXCEPT ![N] = Tail(@)]
@@ -95,9 +114,9 @@ Collect ==
                 ELSE result' = "err" /\ UNCHANGED out
        \/ /\ Len(chan[N]) = 0 /\ closed[N]
           /\ result' = "ok" /\ UNCHANGED <<chan, out>>
-    /\ UNCHANGED <<sent, got, st, fired, closed>>
+    /\ UNCHANGED <<sent, got, st, fired, closed, rcv>>
 
-Next == (\E o \in Ops : Forward(o) \/ Report(o) \/ Finish(o) \/ Relay(o)) \/ Collect
+Next == (\E o \in Ops : Forward(o) \/ Report(o) \/ Finish(o) \/ Relay(o) \/ Subscribe(o) \/ Deactivate(o)) \/ Collect
 Spec == Init /\ [][Next]_vars
 
 \* C15: success is never reported for a run in which the fault fired
